@@ -19,6 +19,7 @@ func driveField(c *ctx) {
 	grid := edgeGrid(bigP)
 	nRand := c.scale(40, 400)
 	vals := append([]*big.Int{}, grid...)
+	vals = append(vals, montPatternValues(r, bigP)...)
 	for i := 0; i < nRand; i++ {
 		vals = append(vals, randBig(r, bigP))
 	}
